@@ -384,20 +384,77 @@ class Check:
         self.quick_budget, self.thorough_budget = quick_budget, thorough_budget
 
 
+class HangTimeout(BaseException):
+    """raised by the per-case watchdog (BaseException so that `except Exception` in harness or
+    werkzeug code cannot swallow it)"""
+
+
+CASE_TIMEOUT_S = float(os.environ.get("VERIF_CASE_TIMEOUT", "20"))
+
+
+class watchdog:
+    """SIGALRM based per-case time limit (main thread only; a harness that installs its own, shorter
+    timer inside simply replaces this one for the duration)"""
+
+    def __enter__(self):
+        import signal
+        import threading
+
+        self.on = threading.current_thread() is threading.main_thread() and CASE_TIMEOUT_S > 0
+        if self.on:
+            def fire(signum, frame):
+                raise HangTimeout()
+
+            self.old = signal.signal(signal.SIGALRM, fire)
+            signal.setitimer(signal.ITIMER_REAL, CASE_TIMEOUT_S)
+        return self
+
+    def __exit__(self, *a):
+        if self.on:
+            import signal
+
+            signal.setitimer(signal.ITIMER_REAL, 0)
+            signal.signal(signal.SIGALRM, self.old)
+        return False
+
+
 def real_out(stream, case):
     try:
-        return stream.real(case)
+        with watchdog():
+            return stream.real(case)
+    except HangTimeout:
+        return "EXC:HangTimeout"
     except Exception as e:  # noqa: BLE001 - the exception class *is* the observation
         return "EXC:" + type(e).__name__
 
 
+def raised_by_implementation(e, doing):
+    """description when the exception came out of werkzeug - some frame below the last harness
+    frame lies inside $WZ_REPO/src (the innermost one may be stdlib code werkzeug called) - else None"""
+    tb = e.__traceback__
+    files = []
+    while tb is not None:
+        files.append(os.path.realpath(tb.tb_frame.f_code.co_filename))
+        tb = tb.tb_next
+    src = os.path.join(os.path.realpath(REPO), "src") + os.sep
+    ours = os.path.realpath(VERIF) + os.sep
+    last_harness = max([i for i, f in enumerate(files) if f.startswith(ours)], default=-1)
+    inside = [f for f in files[last_harness + 1 :] if f.startswith(src)]
+    if inside:
+        return f"the implementation raised {type(e).__name__} ({str(e)[:120]}) in {os.path.relpath(inside[-1], src)} while {doing} on this case"
+    return None
+
+
 def eval_oracle(stream, case, r):
     """the stream's property oracle, with one refinement: when the oracle's own calls into werkzeug
-    raise (innermost frame inside $WZ_REPO/src), the exception is an observation about the
-    implementation on this case, not a harness failure - it is reported as a violation with the
-    case as replay. An exception raised by harness code itself still propagates (exit 2)."""
+    raise, the exception is an observation about the implementation on this case, not a harness
+    failure - it is reported as a violation with the case as replay. An exception raised by harness
+    code itself propagates (run_stream records it as a broken correspondence for the case)."""
     try:
-        return stream.oracle(case, r)
+        with watchdog():
+            return stream.oracle(case, r)
+    except HangTimeout:
+        return "the implementation did not return within the per-case time limit while the property oracle exercised it on this case"
     except Exception as e:  # noqa: BLE001
         what = raised_by_implementation(e, "the property oracle exercised it")
         if what is None:
@@ -405,35 +462,37 @@ def eval_oracle(stream, case, r):
         return what
 
 
-def raised_by_implementation(e, doing):
-    """description when the innermost frame of the exception is inside $WZ_REPO/src, else None"""
-    tb = e.__traceback__
-    last = None
-    while tb is not None:
-        last = tb.tb_frame.f_code.co_filename
-        tb = tb.tb_next
-    src = os.path.join(os.path.realpath(REPO), "src") + os.sep
-    if last and os.path.realpath(last).startswith(src):
-        return f"the implementation raised {type(e).__name__} ({str(e)[:120]}) in {os.path.relpath(os.path.realpath(last), src)} while {doing} on this case"
-    return None
-
-
 def run_stream(stream, cases, driver, model_ok, stats):
-    """returns (violations, disagreements)"""
+    """returns (violations, disagreements). A driver failure is infrastructure (propagates); an
+    exception while the harness evaluates ONE case is recorded against that case: as a violation when
+    it came out of werkzeug, otherwise as a broken correspondence (the harness, validated on the
+    unchanged tree, met an observation it cannot interpret) - the failing-input search then decides."""
     reals = [real_out(stream, c) for c in cases]
     lines, idx = [], []
-    pre_viol = []
+    violations, disagreements = [], []
+    bad = set()
+
+    def harness_failed(i, e, doing):
+        bad.add(i)
+        what = None if isinstance(e, HangTimeout) else raised_by_implementation(e, doing)
+        if isinstance(e, HangTimeout):
+            what = f"the implementation did not return within the per-case time limit while {doing} on this case"
+        if what is not None:
+            try:
+                k = stream.finding_key(cases[i], what)
+            except Exception:  # noqa: BLE001
+                k = None
+            violations.append(Violation(stream.name, cases[i], what, k))
+        else:
+            disagreements.append({"stream": stream.name, "case": cases[i], "real": reals[i], "model": f"<the harness could not evaluate this case while {doing}: {type(e).__name__}: {str(e)[:200]}>"})
+
     if model_ok:
         for i, c in enumerate(cases):
             try:
-                ml = stream.model_line(c)
-            except Exception as e:  # noqa: BLE001
-                # some streams drive the real code while preparing the model's input: the
-                # implementation raising there is an observation, a harness bug is not
-                what = raised_by_implementation(e, "the harness drove it to prepare the model's input")
-                if what is None:
-                    raise
-                pre_viol.append(Violation(stream.name, c, what, stream.finding_key(c, what)))
+                with watchdog():
+                    ml = stream.model_line(c)
+            except (Exception, HangTimeout) as e:  # noqa: BLE001
+                harness_failed(i, e, "the harness prepared the model's input")
                 ml = None
             if ml is not None:
                 lines.append(ml)
@@ -442,23 +501,34 @@ def run_stream(stream, cases, driver, model_ok, stats):
     if lines:
         outs = driver.batch(lines)
         for i, o in zip(idx, outs):
-            models[i] = stream.canon_model(cases[i], o)
-    violations, disagreements = pre_viol, []
+            try:
+                models[i] = stream.canon_model(cases[i], o)
+            except Exception as e:  # noqa: BLE001
+                harness_failed(i, e, "the harness canonicalised the model's answer")
     seen = stats.setdefault("seen", set())
     for i, c in enumerate(cases):
         r = reals[i]
         stats["evaluations"] = stats.get("evaluations", 0) + 1
-        b = stream.bucket(c, r)
+        try:
+            b = stream.bucket(c, r)
+        except Exception:  # noqa: BLE001
+            b = "<unclassified>"
         stats.setdefault("buckets", {})
         stats["buckets"][b] = stats["buckets"].get(b, 0) + 1
         key = json.dumps(c, sort_keys=True)
-        if key not in seen:
-            seen.add(key)
-            if stream.nontrivial(c, r):
-                stats["distinct_nontrivial"] = stats.get("distinct_nontrivial", 0) + 1
-        what = eval_oracle(stream, c, r)
-        if what is not None:
-            violations.append(Violation(stream.name, c, what, stream.finding_key(c, what)))
+        if i in bad:
+            continue
+        try:
+            if key not in seen:
+                seen.add(key)
+                if stream.nontrivial(c, r):
+                    stats["distinct_nontrivial"] = stats.get("distinct_nontrivial", 0) + 1
+            what = eval_oracle(stream, c, r)
+            if what is not None:
+                violations.append(Violation(stream.name, c, what, stream.finding_key(c, what)))
+        except Exception as e:  # noqa: BLE001
+            harness_failed(i, e, "the harness evaluated the property oracle")
+            continue
         if i in models:
             stats["model_compared"] = stats.get("model_compared", 0) + 1
             if models[i] != r:
@@ -568,7 +638,10 @@ def main(check: Check, argv):
             seeds = [d["case"] for d in all_dis if d["stream"] == st.name]
             cand = []
             for s in seeds[:50]:
-                cand += list(st.mutate(s, rng))
+                try:
+                    cand += list(st.mutate(s, rng))
+                except Exception:  # noqa: BLE001
+                    pass
             g = st.cases(rng, "thorough")
             for c in g:
                 cand.append(c)
@@ -577,12 +650,14 @@ def main(check: Check, argv):
             for c in cand:
                 searched += 1
                 r = real_out(st, c)
-                what = eval_oracle(st, c, r)
-                if what is not None:
-                    k = st.finding_key(c, what)
-                    if k not in known:
-                        all_viol.append(Violation(st.name, c, what, k))
-                        break
+                try:
+                    what = eval_oracle(st, c, r)
+                    k = st.finding_key(c, what) if what is not None else None
+                except Exception:  # noqa: BLE001 - a candidate the harness cannot interpret is skipped
+                    continue
+                if what is not None and k not in known:
+                    all_viol.append(Violation(st.name, c, what, k))
+                    break
             if [v for v in all_viol if v.key not in known]:
                 break
 
@@ -607,7 +682,10 @@ def main(check: Check, argv):
             for st in check.streams:
                 if st.name == f.get("stream"):
                     r = real_out(st, f["case"])
-                    still = eval_oracle(st, f["case"], r) is not None
+                    try:
+                        still = eval_oracle(st, f["case"], r) is not None
+                    except Exception:  # noqa: BLE001
+                        still = None
                     known_replayed += 1
         if still or (still is None and key in known_seen):
             print(f"KNOWN-FINDING: property={prop} {key} {what}", flush=True)
